@@ -132,4 +132,95 @@ theorem fromRD_valid (n : Int) :
       (subst h; simp [dbm])
   omega
 
+/-- start of year is strictly increasing in the year (a year has at least 365 days) -/
+theorem yearStart_le_of_lt (y : Int) : ∀ (k : Nat), toRD ⟨y, 1, 1⟩ + 365 * ((k : Int) + 1) ≤ toRD ⟨y + ((k : Int) + 1), 1, 1⟩ := by
+  intro k
+  induction k with
+  | zero =>
+    have := yearLen y
+    simp only [Int.natCast_zero, Int.zero_add] at *
+    split at this <;> omega
+  | succ k ih =>
+    have h := yearLen (y + ((k : Int) + 1))
+    have e : y + (((k + 1 : Nat) : Int) + 1) = y + ((k : Int) + 1) + 1 := by omega
+    rw [e]
+    have e2 : (((k + 1 : Nat) : Int) + 1) = (k : Int) + 1 + 1 := by omega
+    rw [e2]
+    split at h <;> omega
+
+theorem yearStart_lt (y y' : Int) (h : y < y') : toRD ⟨y, 1, 1⟩ + 365 ≤ toRD ⟨y', 1, 1⟩ := by
+  obtain ⟨k, hk⟩ : ∃ k : Nat, y' = y + ((k : Int) + 1) := ⟨(y' - y - 1).toNat, by omega⟩
+  have := yearStart_le_of_lt y k
+  rw [hk]; omega
+
+/-- the year of a day number is the unique year whose span contains it -/
+theorem yearOfRD_unique (n y : Int) (h1 : toRD ⟨y, 1, 1⟩ ≤ n) (h2 : n < toRD ⟨y + 1, 1, 1⟩) : yearOfRD n = y := by
+  have hs := yearOfRD_spec n
+  rcases Int.lt_trichotomy (yearOfRD n) y with h | h | h
+  · have := yearStart_lt (yearOfRD n) y h
+    have h' : yearOfRD n + 1 ≤ y := h
+    rcases Int.lt_or_eq_of_le h' with h'' | h''
+    · have := yearStart_lt (yearOfRD n + 1) y h''; omega
+    · rw [h''] at hs; omega
+  · exact h
+  · have h' : y + 1 ≤ yearOfRD n := h
+    rcases Int.lt_or_eq_of_le h' with h'' | h''
+    · have := yearStart_lt (y + 1) (yearOfRD n) h''; omega
+    · rw [← h''] at hs; omega
+
+/-- days in month m of a year with leap indicator lp -/
+def dim (lp m : Int) : Int := dbm lp (m + 1) - dbm lp m
+
+/-- a calendar date: month 1..12, day 1..length of that month -/
+def ValidDate (dt : Date) : Prop :=
+  1 ≤ dt.m ∧ dt.m ≤ 12 ∧ 1 ≤ dt.d ∧ dt.d ≤ dim (if isLeap dt.y then 1 else 0) dt.m
+
+theorem dim_values (lp : Int) : dim lp 1 = 31 ∧ dim lp 2 = 28 + lp ∧ dim lp 3 = 31 ∧ dim lp 4 = 30 ∧ dim lp 5 = 31 ∧
+    dim lp 6 = 30 ∧ dim lp 7 = 31 ∧ dim lp 8 = 31 ∧ dim lp 9 = 30 ∧ dim lp 10 = 31 ∧ dim lp 11 = 30 ∧ dim lp 12 = 31 := by
+  simp [dim, dbm]; omega
+
+/-- **`fromRD` inverts `toRD` on every calendar date** (with `fromRD_valid`: the dates and the day
+    numbers are in bijection - chrono's contract for `NaiveDate` arithmetic) -/
+theorem fromRD_toRD (dt : Date) (h : ValidDate dt) : fromRD (toRD dt) = dt := by
+  obtain ⟨y, m, d⟩ := dt
+  obtain ⟨hm1, hm2, hd1, hd2⟩ := h
+  simp only at hm1 hm2 hd1 hd2
+  have hlen := yearLen y
+  have hlp01 : (if isLeap y = true then (1 : Int) else 0) = 0 ∨ (if isLeap y = true then (1 : Int) else 0) = 1 := by
+    split <;> simp
+  have hy : yearOfRD (toRD ⟨y, m, d⟩) = y := by
+    apply yearOfRD_unique
+    · simp only [toRD, daysBeforeMonth_eq] at *
+      generalize (if isLeap y = true then (1 : Int) else 0) = lp at *
+      have hcases : m = 1 ∨ m = 2 ∨ m = 3 ∨ m = 4 ∨ m = 5 ∨ m = 6 ∨ m = 7 ∨ m = 8 ∨ m = 9 ∨ m = 10 ∨ m = 11 ∨ m = 12 := by omega
+      rcases hcases with h | h | h | h | h | h | h | h | h | h | h | h <;>
+        (subst h; simp only [dim, dbm] at *; simp at *; omega)
+    · have hl2 : toRD ⟨y + 1, 1, 1⟩ = toRD ⟨y, 1, 1⟩ + (365 + (if isLeap y = true then (1 : Int) else 0)) := by
+        split at hlen <;> simp_all <;> omega
+      rw [hl2]
+      simp only [toRD, daysBeforeMonth_eq] at *
+      generalize (if isLeap y = true then (1 : Int) else 0) = lp at *
+      have hcases : m = 1 ∨ m = 2 ∨ m = 3 ∨ m = 4 ∨ m = 5 ∨ m = 6 ∨ m = 7 ∨ m = 8 ∨ m = 9 ∨ m = 10 ∨ m = 11 ∨ m = 12 := by omega
+      rcases hcases with h | h | h | h | h | h | h | h | h | h | h | h <;>
+        (subst h; simp only [dim, dbm] at *; simp at *; omega)
+  simp only [fromRD, hy]
+  simp only [toRD, daysBeforeMonth_eq] at *
+  have hcorr : (if isLeap y = true then (1 : Int) else 2) = 2 - (if isLeap y = true then (1 : Int) else 0) := by
+    split <;> simp
+  rw [hcorr]
+  generalize (if isLeap y = true then (1 : Int) else 0) = lp at *
+  generalize daysBeforeYear y = Y at *
+  have hcases : m = 1 ∨ m = 2 ∨ m = 3 ∨ m = 4 ∨ m = 5 ∨ m = 6 ∨ m = 7 ∨ m = 8 ∨ m = 9 ∨ m = 10 ∨ m = 11 ∨ m = 12 := by omega
+  have d1 : dbm lp 1 = 0 := by simp [dbm]
+  have d3 : dbm lp 3 = 59 + lp := by simp [dbm]; omega
+  rw [d1, d3]
+  have hmonth : (12 * (Y + dbm lp m + d - (Y + 0 + 1) +
+      (if Y + dbm lp m + d < Y + (59 + lp) + 1 then 0 else 2 - lp)) + 373) / 367 = m := by
+    rcases hlp01 with rfl | rfl <;>
+    rcases hcases with h | h | h | h | h | h | h | h | h | h | h | h <;>
+      (subst h; simp only [dim, dbm] at *; simp at *; split <;> omega)
+  rw [hmonth]
+  congr 1
+  omega
+
 end IPT.CivilLemmas
